@@ -128,6 +128,12 @@ impl<H: Hal, const SIZE: usize> VirtQueue<H, SIZE> {
             unsafe {
                 (*desc.as_ptr())[i as usize].next = i + 1;
             }
+            #[cfg(virtio_drivers_verif)]
+            crate::verif::emit(crate::verif::Event::Store {
+                queue: idx,
+                area: crate::verif::Area::Desc,
+                index: i,
+            });
         }
 
         #[cfg(feature = "alloc")]
@@ -199,10 +205,20 @@ impl<H: Hal, const SIZE: usize> VirtQueue<H, SIZE> {
         unsafe {
             (*self.avail.as_ptr()).ring[avail_slot as usize] = head;
         }
+        #[cfg(virtio_drivers_verif)]
+        crate::verif::emit(crate::verif::Event::Store {
+            queue: self.queue_idx,
+            area: crate::verif::Area::AvailRing,
+            index: avail_slot,
+        });
 
         // Write barrier so that device sees changes to descriptor table and available ring before
         // change to available index.
         fence(Ordering::SeqCst);
+        #[cfg(virtio_drivers_verif)]
+        crate::verif::emit(crate::verif::Event::Fence {
+            queue: self.queue_idx,
+        });
 
         // increase head of avail ring
         self.avail_idx = self.avail_idx.wrapping_add(1);
@@ -212,6 +228,12 @@ impl<H: Hal, const SIZE: usize> VirtQueue<H, SIZE> {
                 .idx
                 .store(self.avail_idx, Ordering::Release);
         }
+        #[cfg(virtio_drivers_verif)]
+        crate::verif::emit(crate::verif::Event::Store {
+            queue: self.queue_idx,
+            area: crate::verif::Area::AvailIdx,
+            index: 0,
+        });
 
         Ok(head)
     }
@@ -331,6 +353,11 @@ impl<H: Hal, const SIZE: usize> VirtQueue<H, SIZE> {
         // Wait until there is at least one element in the used ring.
         while !self.can_pop() {
             spin_loop();
+            #[cfg(virtio_drivers_verif)]
+            crate::verif::emit(crate::verif::Event::Spin {
+                site: "add_notify_wait_pop",
+                queue: self.queue_idx,
+            });
         }
 
         // SAFETY: These are the same buffers as we passed to `add` above and they are still valid.
@@ -350,6 +377,12 @@ impl<H: Hal, const SIZE: usize> VirtQueue<H, SIZE> {
                     .flags
                     .store(avail_ring_flags, Ordering::Release)
             }
+            #[cfg(virtio_drivers_verif)]
+            crate::verif::emit(crate::verif::Event::Store {
+                queue: self.queue_idx,
+                area: crate::verif::Area::AvailFlags,
+                index: 0,
+            });
         }
     }
 
@@ -379,6 +412,12 @@ impl<H: Hal, const SIZE: usize> VirtQueue<H, SIZE> {
         unsafe {
             (*self.desc.as_ptr())[index] = self.desc_shadow[index].clone();
         }
+        #[cfg(virtio_drivers_verif)]
+        crate::verif::emit(crate::verif::Event::Store {
+            queue: self.queue_idx,
+            area: crate::verif::Area::Desc,
+            index: index as u16,
+        });
     }
 
     /// Returns whether there is a used element that can be popped.
@@ -563,6 +602,12 @@ impl<H: Hal, const SIZE: usize> VirtQueue<H, SIZE> {
                     .used_event
                     .store(self.last_used_idx, Ordering::Release);
             }
+            #[cfg(virtio_drivers_verif)]
+            crate::verif::emit(crate::verif::Event::Store {
+                queue: self.queue_idx,
+                area: crate::verif::Area::UsedEvent,
+                index: 0,
+            });
         }
 
         Ok(len)
